@@ -178,7 +178,9 @@ def checkC02 (c : Ctx) : List String :=
 def checkC14 (c : Ctx) : List String :=
   let overlong := c.table.any (fun e => !e.isPad && match c.beforeOf e.fullTarget with
     | some b => b.length > e.fileLength | none => false)
-  let a := if c.req.resize && overlong && c.req.faults.isEmpty &&
+  -- (whatever operations fail: everything up to the end of the first pass is read-only, and no failure lets the
+  --  first pass accept an over-long image)
+  let a := if c.req.resize && overlong &&
       (c.obs.result != "err" || c.obs.ops.any (fun o => o.kind.mutating) || c.obs.files.any (fun f => c.beforeOf f.1 != some f.2)
         || c.before.files.any (fun f => (c.afterOf f.1).isNone))
     then ["c14-overlong-not-aborted"] else []
